@@ -50,6 +50,18 @@ theorem argOKB_sound (a : Arg) (h : argOKB a = true) : argOK a := by
   | flags xs => trivial
   | kw i => trivial
   | okw o => trivial
+  | loc i => exact identOKB_sound i h
+  | pad p =>
+    cases p with
+    | none => intro i hi; simp at hi
+    | some j => intro i hi; simp at hi; subst hi; exact identOKB_sound _ h
+  | labs l =>
+    simp only [argOKB, List.all_eq_true] at h
+    intro i hi; exact identOKB_sound i (h i hi)
+  | unwind u =>
+    cases u with
+    | none => intro i hi; simp at hi
+    | some j => intro i hi; simp at hi; subst hi; exact identOKB_sound _ h
 
 theorem matchesB_sound : ∀ (fs : List Slot) (as : List Arg), matchesB fs as = true → Matches fs as
   | [], [], _ => .nil
@@ -139,6 +151,26 @@ theorem matchesB_sound : ∀ (fs : List Slot) (as : List Arg), matchesB fs as = 
         simp only [matchesB, Bool.and_eq_true, decide_eq_true_eq] at h
         exact .kw ks i h.1 (matchesB_sound fs as h.2)
       | _ => simp [matchesB] at h
+  | .loc :: fs, as, h => by
+    cases as with
+    | nil => simp [matchesB] at h
+    | cons a as => cases a <;> first | exact .loc _ (matchesB_sound fs as (by simpa [matchesB] using h)) | simp [matchesB] at h
+  | .pad :: fs, as, h => by
+    cases as with
+    | nil => simp [matchesB] at h
+    | cons a as => cases a <;> first | exact .pad _ (matchesB_sound fs as (by simpa [matchesB] using h)) | simp [matchesB] at h
+  | .labs :: fs, as, h => by
+    cases as with
+    | nil => simp [matchesB] at h
+    | cons a as => cases a <;> first | exact .labs _ (matchesB_sound fs as (by simpa [matchesB] using h)) | simp [matchesB] at h
+  | .unwind :: fs, as, h => by
+    cases as with
+    | nil => simp [matchesB] at h
+    | cons a as => cases a <;> first | exact .unwind _ (matchesB_sound fs as (by simpa [matchesB] using h)) | simp [matchesB] at h
+  | .eargs :: fs, as, h => by
+    cases as with
+    | nil => simp [matchesB] at h
+    | cons a as => cases a <;> first | exact .eargs _ (matchesB_sound fs as (by simpa [matchesB] using h)) | simp [matchesB] at h
   | .okw ks :: fs, as, h => by
     cases as with
     | nil => simp [matchesB] at h
@@ -287,6 +319,10 @@ theorem retypeArg_id (ge : GEnv) (e : List (Ident × Ty)) (a : Arg) (h : consist
   | flags xs => rfl
   | kw i => rfl
   | okw o => rfl
+  | loc i => rfl
+  | pad p => rfl
+  | labs l => rfl
+  | unwind u => rfl
   | tyvals ixs =>
     simp only [consistentArg, List.all_eq_true] at h
     simp only [retypeArg]
@@ -396,12 +432,12 @@ theorem fill_id (f : Func) (l : List Numbering.Slot) (h : wfSyn f = true) : fill
 
 theorem translateIn_wf (ge : GEnv) (f : Func) (hs : wfSyn f = true) (h : wfSemIn ge f = true) : translateIn ge f = some f := by
   simp only [wfSemIn, Bool.and_eq_true, Bool.not_eq_true'] at h
-  obtain ⟨⟨⟨⟨⟨⟨⟨hd, hu⟩, hl⟩, hn⟩, hc⟩, ht⟩, hg⟩, hcalls⟩ := h
+  obtain ⟨⟨⟨⟨⟨⟨⟨⟨hd, hu⟩, hl⟩, hn⟩, hc⟩, ht⟩, hg⟩, hcalls⟩, hpads⟩ := h
   unfold translateIn
   have hp := Props.C08.parser_accepts_exactly_llvm (slotsOf f) 0
   unfold parseAssign
   rw [hp]
-  simp only [hn, if_true, fill_id f _ hs, hd, Bool.false_eq_true, if_false, hu, hl, ht, hg, hcalls, Bool.and_self, retype_id ge f hc]
+  simp only [hn, if_true, fill_id f _ hs, hd, Bool.false_eq_true, if_false, hu, hl, ht, hg, hcalls, hpads, Bool.and_self, retype_id ge f hc]
 
 theorem translate_wf (f : Func) (hs : wfSyn f = true) (h : wfSem f = true) : translate f = some f :=
   translateIn_wf (selfEnv f) f hs h
